@@ -15,7 +15,10 @@ def Bridge_SetSourceConnection : List String := ["tunnelConnMu.Lock", "tunnelCon
 def Bridge_Start : List String := ["tunnelConnMu.Lock", "sourceConnMu.Lock", "CreateDataForwarder", "sourceConnMu.Unlock", "CreateDataForwarder", "tunnelConnMu.Unlock", "sourceConnMu.RLock", "sourceConnMu.RUnlock", "b.CopyWithControl", "sourceConnMu.RLock", "sourceConnMu.RUnlock", "b.CopyWithControl"]
 def CopyWithControl : List String := ["counter.Add", "src.Read", "waitLimiterN", "dst.Write", "counter.Add", "counter.Add"]
 def dynamicSourceWriter_Write : List String := ["sourceConnMu.RLock", "sourceConnMu.RUnlock", "sourceForwarder.Write"]
+def forwardToSourceNode : List String := ["tunnelConnMgr.CreateDedicatedConnection", "crossNodePool.Get", "crossConn.GetTCPConn", "WriteFrame", "runCrossNodeDataForwardDedicated"]
+def runBridgeForward : List String := ["bridge.ReleaseCrossNodeConnection", "bridge.Close", "sourceForwarder.Close", "io.Copy", "tcpConn.CloseWrite", "io.Copy", "closer.CloseWrite", "tcpSource.CloseWrite"]
 def runBridgeLifecycle : List String := ["bridge.Close", "bridge.Start", "bridgeLock.Lock", "delete", "bridgeLock.Unlock", "tunnelRouting.RemoveWaitingTunnel"]
+def runCrossNodeDataForwardDedicated : List String := ["tunnelConnMgr.CloseTunnel", "tcpConn.Close", "netConn.Close", "io.Copy", "tcpConn.CloseWrite", "io.Copy", "tcpLocal.CloseWrite"]
 def waitLimiterN : List String := ["limiter.Burst", "limiter.WaitN", "limiter.WaitN"]
 end Skel
 
